@@ -35,6 +35,21 @@ Theorem C20_finish_once_per_record : forall obs script t',
 Proof. intros obs script t'. exact (finish_follows_record obs script 0 false t'). Qed.
 Print Assumptions C20_finish_once_per_record.
 
+(* an evaluator error - alone or together with a "solved" mark or a cancellation made in the same call -
+   ends the run at once: the failing evaluation is the last event of the run (nothing is recorded or
+   announced after it, no later trial is spawned) *)
+Theorem C20_error_ends_run : forall obs script tr,
+    execute obs script = (tr, ErrEval) -> exists tr' t g k, tr = tr' ++ [EEval t g t k].
+Proof. intros obs script tr H. exact (error_ends_run obs script 0 false tr H). Qed.
+Print Assumptions C20_error_ends_run.
+
+(* and a trial whose first outcome other than "unsolved" is such an error does abort with it *)
+Theorem C20_reached_error_aborts : forall obs t os o i,
+    first_decisive os = Some (i, o) -> is_error o = true ->
+    g_abort (gen_loop obs t 0 0 0 false os) = Some ErrEval.
+Proof. intros obs t os o i. exact (reached_error_aborts obs t os o i 0 0 0). Qed.
+Print Assumptions C20_reached_error_aborts.
+
 (* non-vacuity: a two-trial script with a solved, a cancelled and an unsolved generation *)
 Example C20_example :
   execute true [[Unsolved; Solved; Unsolved]; [CancelSolved; Unsolved]; [Unsolved]] =
@@ -42,4 +57,9 @@ Example C20_example :
     ERecord 0 2 1; EFinish 0 2;
     ESpawn 1; EStart 1; EEval 1 0 1 0; EEpoch 1 0; ERecord 1 1 0; EFinish 1 1;
     ESpawn 2; EStart 2], ErrCtx).
+Proof. vm_compute. reflexivity. Qed.
+
+Example C20_example_solved_and_error :
+  execute true [[Unsolved; SolvedError; Unsolved]; [Solved]] =
+  ([ESpawn 0; EStart 0; EEval 0 0 0 0; ENext 0 0; EEpoch 0 0; EEval 0 1 0 1], ErrEval).
 Proof. vm_compute. reflexivity. Qed.
